@@ -24,6 +24,8 @@ CLAIMED.update({
          "container level is for-all within bounds; the json text layer (C code) is crossed with one solver-chosen representative per path plus float/datetime catalogues; two known findings (namespace-URI/prefix ambiguity, bundle shadowing a document prefix)"),
  "C10": ("an independent PROV-JSON reader written from the specification is run symbolically on the emitted container (contents symbolic) and must recover the same strict content and accept the structure; on replay the real text under all dump options is read by the same reader", "4/C10",
          "JSON part only so far (XML part pending); reader = oracles/provjson_reader.py, shares no code with prov"),
+ "C06": ("(i) SMT kernel: for every string of <=8 (quick) / <=16 (thorough) code points the literal printed by the real escaping code is accepted by a transducer of the PROV-N STRING_LITERAL grammar and denotes the source string - one z3 query per call site, all strings at once; (ii) path-complete exploration of get_provn() over the C01 document space, each path's text parsed by an independent recursive-descent PROV-N parser (W3C grammar) and compared strictly", "4/C06",
+         "kernel: for-all within the length bound; expressions: one solver-chosen representative per path (text is pinned before parsing); floats/datetimes from catalogues; PROV-N-inexpressible records (identified/attributed specialization, alternate, membership, mention) excluded"),
 })
 NA = {}
 props = [json.loads(l) for l in open(os.path.join(V, "properties.jsonl"))]
